@@ -65,6 +65,9 @@ func H_C15_key() {
 	if p+d+1 > 66 {
 		return
 	}
+	if ms := vparam("MINSUM"); ms > 0 && p+d+1 < ms && (p > 6 || d > 6) {
+		return // thorough: every pair of short parts and every pair whose total is near the 63-character limit
+	}
 	// short strings range over all 256 byte values; long ones over all 7-bit values (stated bound)
 	var plugin, deviceID string
 	if p <= 4 {
